@@ -39,6 +39,40 @@ PROPS = {
                         "readers-overflow aborts (> isize::MAX readers) are outside the model"],
         "partial": ["interleavings of atomic operations", "happens-before clauses (memory-ordering table)"],
     },
+    "C06": {
+        "modules": ["ALock.Props.C06"],
+        "prims": ["rwlock"],
+        "fields": ["out", "w", "words", "ev"],
+        "monitors": ["C06"],
+        "assumptions": ["polls are atomic (single-threaded executor)",
+                        "reading: a live upgrade future that was never polled holds the lock it consumed (clause (i) says so explicitly)"],
+        "partial": ["thread interleavings (deadlock under threads) are not covered by the theorems"],
+    },
+    "C12": {
+        "modules": ["ALock.Props.C12"],
+        "prims": ["rwlock"],
+        "fields": ["out", "w", "words", "ev"],
+        "monitors": ["C12"],
+        "assumptions": ["polls are atomic (single-threaded executor)"],
+        "partial": ["thread interleavings"],
+    },
+    "C10": {
+        "modules": ["ALock.Props.C10"],
+        "prims": ["mutex", "sem", "rwlock"],
+        "fields": ["out", "w", "words", "ev"],
+        "monitors": ["C10"],
+        "assumptions": ["'as if never started' = same resources and same grants (exact accounting over live operations), not trace equality: a cancelled notified waiter causes one extra wake-up of the next waiter",
+                        "polls are atomic"],
+        "partial": ["interleavings where one thread drops a pending future while another releases the lock"],
+    },
+    "C14": {
+        "modules": ["ALock.Props.C14"],
+        "prims": ["mutex", "sem", "rwlock"],
+        "fields": ["out", "words", "ev"],
+        "monitors": ["C14", "C01", "C02", "C03"],
+        "assumptions": ["every try_* is one atomic call in the model; the 'never succeeds in conflict' half under interleavings is covered by the small-step models only"],
+        "partial": ["interleavings"],
+    },
     "C11": {
         "modules": ["ALock.Props.C11"],
         "prims": ["rwlock"],
